@@ -63,6 +63,64 @@ func lockOp(f *ssa.Function) (string, bool) {
 	return "", false
 }
 
+// lockKindsOf: the kinds of mutexes ("<Struct>.<field>") that fn, or anything it calls inside the
+// package, locks (for reading or writing).
+func (w *World) lockKindsOf(fn *ssa.Function) map[string]bool {
+	if w.lockKinds == nil {
+		w.lockKinds = map[*ssa.Function]map[string]bool{}
+		direct := map[*ssa.Function]map[string]bool{}
+		callees := map[*ssa.Function][]*ssa.Function{}
+		for _, f := range w.AllFuncs {
+			direct[f] = map[string]bool{}
+			for _, b := range f.Blocks {
+				for _, in := range b.Instrs {
+					c, ok := in.(ssa.CallInstruction)
+					if !ok {
+						continue
+					}
+					if sc := c.Common().StaticCallee(); sc != nil {
+						if op, isLock := lockOp(sc); isLock {
+							if (op == "lock" || op == "rlock") && len(c.Common().Args) > 0 {
+								if fa, ok := c.Common().Args[0].(*ssa.FieldAddr); ok {
+									if sn, st := w.structOfPtr(fa.X.Type()); st != nil {
+										direct[f][sn+"."+st.Field(fa.Field).Name()] = true
+									}
+								}
+							}
+							continue
+						}
+					}
+					tg, _ := w.callTargets(c.Common())
+					for _, t := range tg {
+						if t.Pkg == w.Pkg {
+							callees[f] = append(callees[f], t)
+						}
+					}
+				}
+			}
+		}
+		for _, f := range w.AllFuncs {
+			seen := map[*ssa.Function]bool{}
+			acc := map[string]bool{}
+			stack := []*ssa.Function{f}
+			for len(stack) > 0 {
+				g := stack[len(stack)-1]
+				stack = stack[:len(stack)-1]
+				if seen[g] {
+					continue
+				}
+				seen[g] = true
+				for k := range direct[g] {
+					acc[k] = true
+				}
+				stack = append(stack, callees[g]...)
+			}
+			w.lockKinds[f] = acc
+		}
+	}
+	return w.lockKinds[fn]
+}
+
 // structOfPtr returns the struct name and type behind a pointer-typed SSA value.
 func (w *World) structOfPtr(t types.Type) (string, *types.Struct) {
 	p, ok := t.Underlying().(*types.Pointer)
@@ -173,6 +231,28 @@ func lockFamily(w *World, prop string) ([]*Obligation, []string) {
 		}
 		lockState := func(fx *FnExec) string { return fx.cur.gh["$lk"] }
 		fx.onCall = func(fx *FnExec, call ssa.CallInstruction, args []Val, res *Val) {
+			// a callee that takes a lock of some kind (struct type and mutex field; transitively, class
+			// hierarchy targets for interface calls) is not called while a mutex of that kind is held:
+			// two sites that are each fine alone (a getter that locks, a caller that already holds the
+			// lock) block the goroutine forever together - also for two read locks, once a writer waits
+			if tg, _ := w.callTargets(call.Common()); len(tg) > 0 {
+				kinds := map[string]bool{}
+				for _, t := range tg {
+					if _, isLock := lockOp(t); isLock {
+						continue
+					}
+					for k := range w.lockKindsOf(t) {
+						kinds[k] = true
+					}
+				}
+				for _, k := range sortedKeys(kinds) {
+					i := strings.Index(k, ".")
+					fnm := "fieldptr_" + k[:i] + "_" + sanitize(k[i+1:])
+					fx.declareFun(fnm, []string{"Int"}, "Int")
+					o := fx.oblige("relock", "(forall ((r Int)) (= (select "+lockState(fx)+" ("+fnm+" r)) 0))", call, "no mutex "+k+" is held when a function that locks one is called (sync's mutexes are not re-entrant, and a second read lock blocks for ever once a writer waits)")
+					o.Props = []string{"C02", "C05"}
+				}
+			}
 			f := call.Common().StaticCallee()
 			if f == nil {
 				return
@@ -191,7 +271,7 @@ func lockFamily(w *World, prop string) ([]*Obligation, []string) {
 				o := fx.oblige("relock", "(= (select "+cur+" "+m+") 0)", call, "the mutex is not already held when it is locked (sync.Mutex and sync.RWMutex are not re-entrant: the goroutine would block forever)")
 				o.Props = []string{"C02", "C05"}
 			case "rlock":
-				o := fx.oblige("relock", "(distinct (select "+cur+" "+m+") 2)", call, "the mutex is not held for writing when it is locked for reading (the goroutine would block forever)")
+				o := fx.oblige("relock", "(= (select "+cur+" "+m+") 0)", call, "the mutex is not held, for writing or for reading, when it is locked for reading (recursive read locking is prohibited: the goroutine blocks forever once a writer waits)")
 				o.Props = []string{"C02", "C05"}
 			}
 			switch op {
